@@ -69,11 +69,12 @@ impl Dependencies for Block {
 
 impl Compile for Block {
     fn compile(&self, state: &CompilationState) -> Result<Vec<super::CompiledItem>> {
-        let compiled_body: Vec<super::CompiledItem> = self
-            .0
-            .iter()
-            .flat_map(|x| x.compile(state).unwrap())
-            .collect();
+        let mut compiled_body: Vec<super::CompiledItem> = vec![];
+
+        // an error of the code generator is an error of this block, not a panic
+        for statement in &self.0 {
+            compiled_body.append(&mut statement.compile(state)?);
+        }
 
         Ok(compiled_body)
     }
